@@ -102,17 +102,20 @@ DefsFor(c, n, k) ==
   ELSE LET d == Get(c.defs, KeyStr(n, k)) IN
        IF d # <<>> THEN d ELSE IF n \in DOMAIN c.vari THEN <<c.vari[n]>> ELSE <<>>
 
+\* A fact or clause head and a goal of the same name/arity are matched argument list against argument
+\* list (the key decides the rest): foo() and foo are the same predicate, whichever way each is written.
+Match(x, y, s) == MGUSeq(ArgsOf(x), ArgsOf(y), s)
 CYC == 999999
 RECURSIVE NextFact(_,_,_,_,_)
 NextFact(snap, i, goal, s, nv) ==
   IF i > Len(snap) THEN 0
-  ELSE LET r == MGU(Shift(snap[i].term, nv), goal, s) IN
+  ELSE LET r == Match(Shift(snap[i].term, nv), goal, s) IN
        IF r.cyc THEN CYC ELSE IF ~r.fail THEN i ELSE NextFact(snap, i+1, goal, s, nv)
 
 RECURSIVE NextClause(_,_,_,_,_)
 NextClause(cls, i, goal, s, nv) ==
   IF i > Len(cls) THEN 0
-  ELSE LET r == MGU(Shift(cls[i].h, nv), goal, s) IN
+  ELSE LET r == Match(Shift(cls[i].h, nv), goal, s) IN
        IF r.cyc THEN CYC ELSE IF ~r.fail THEN i ELSE NextClause(cls, i+1, goal, s, nv)
 
 RECURSIVE NextRow(_,_,_,_,_)
@@ -127,7 +130,7 @@ RECURSIVE NextRetract(_,_,_,_,_,_,_)
 NextRetract(snap, i, pat, s, nv, db, key) ==
   IF i > Len(snap) THEN 0
   ELSE IF ~InDb(db, key, snap[i].id) THEN NextRetract(snap, i+1, pat, s, nv, db, key)
-  ELSE LET r == MGU(Shift(snap[i].term, nv), pat, s) IN
+  ELSE LET r == Match(Shift(snap[i].term, nv), pat, s) IN
        IF r.cyc THEN CYC ELSE IF ~r.fail THEN i ELSE NextRetract(snap, i+1, pat, s, nv, db, key)
 
 Push(c, cp) == [c EXCEPT !.cps = Append(@, cp)]
@@ -161,7 +164,7 @@ TryAlts(c, cp) ==
   IF j = CYC THEN Stop(c, "cyclic")
   ELSE IF j > 0
   THEN LET fact == cp.snap[j]
-           r == MGU(Shift(fact.term, c.nv), cp.goal, c.s) IN
+           r == Match(Shift(fact.term, c.nv), cp.goal, c.s) IN
        Ev([Push(c, [cp EXCEPT !.i = j + 1, !.seen = Append(@, fact.id)]) EXCEPT !.s = r.s, !.nv = @ + fact.nv, !.goals = cp.rest],
           "DoCallFacts")
   ELSE TryDefs(c, [kind |-> "defs", D |-> cp.D, d |-> 1, goal |-> cp.goal, rest |-> cp.rest, s |-> c.s])
@@ -178,6 +181,7 @@ TryDefs(c, cp) ==
                             barrier |-> barrier, rest |-> cp.rest, s |-> c.s])
        ELSE IF def.kind = "builtin"
        THEN Builtin(c1, def.name, cp.goal, cp.rest)
+       ELSE IF \E i \in DOMAIN ArgsOf(cp.goal) : TooBig(ArgsOf(cp.goal)[i], c.s) THEN Stop(c, "unspec")
        ELSE LET callno == GetN(c1.ncalls, def.fid) + 1
                 c2 == [c1 EXCEPT !.ncalls = Put(@, def.fid, callno),
                                  !.nlog = Append(@, [fid |-> def.fid,
@@ -190,7 +194,7 @@ TryClauses(c, cp) ==
   IF j = CYC THEN Stop(c, "cyclic")
   ELSE IF j = 0 THEN Backtrack(Ev(c, "DoClausesExhausted"))
   ELSE LET cl == cp.cls[j]
-           r == MGU(Shift(cl.h, c.nv), cp.goal, c.s) IN
+           r == Match(Shift(cl.h, c.nv), cp.goal, c.s) IN
        Ev([Push(c, [cp EXCEPT !.i = j + 1]) EXCEPT
               !.s = r.s, !.nv = @ + cl.nv,
               !.goals = <<F(ShiftB(cl.body, c.nv), cp.barrier)>> \o cp.rest],
@@ -217,7 +221,7 @@ TryRetract(c, cp) ==
   IF j = CYC THEN Stop(c, "cyclic")
   ELSE IF j = 0 THEN Backtrack(Ev(c, "DoRetractExhausted"))
   ELSE LET fact == cp.snap[j]
-           r == MGU(Shift(fact.term, c.nv), cp.pat, c.s) IN
+           r == Match(Shift(fact.term, c.nv), cp.pat, c.s) IN
        Ev([Push(c, [cp EXCEPT !.i = j + 1, !.seen = Append(@, fact.id)]) EXCEPT
               !.s = r.s, !.nv = @ + fact.nv, !.goals = cp.rest,
               !.db = Put(c.db, cp.key, SelectSeq(Get(c.db, cp.key), LAMBDA f : f.id # fact.id))],
@@ -230,8 +234,10 @@ Ite(c, cnd, thn, els, cb, rest) ==
             !.goals = <<F(cnd, B + 1), F([b |-> "commit", B |-> B], cb), F(thn, cb)>> \o rest]
 
 \* DoAsserta / DoAssertz: the stored fact is a resolved copy with fact-local variables
+\* a zero-argument compound term used as a fact is the atom
+AsFact(t) == IF t.t = "c" /\ t.a = <<>> THEN A(t.n) ELSE t
 AssertF(c, t, atEnd, rest) ==
-  LET ct == Canon(Resolve(t, c.s))
+  LET ct == Canon(AsFact(Resolve(t, c.s)))
       key == KeyOf(ct.term)
       fact == [id |-> c.nf, term |-> ct.term, nv |-> ct.nv]
       old == Get(c.db, key) IN
@@ -271,9 +277,10 @@ Builtin(c, name, t, rest) ==
                                   F([b |-> "collect", k |-> k, t |-> args[1]], cb), F(FailB, cb)>>],
             "DoFindallStart")
     [] name \in {"assertz", "asserta"} ->
-         IF ~Callable(Walk(args[1], c.s)) THEN Stop(c, "unspec")
+         IF ~Callable(Walk(args[1], c.s)) \/ TooBig(args[1], c.s) THEN Stop(c, "unspec")
          ELSE Ev(AssertF(c, args[1], name = "assertz", rest), IF name = "assertz" THEN "DoAssertz" ELSE "DoAsserta")
     [] name = "retract" ->
+         IF TooBig(args[1], c.s) THEN Stop(c, "unspec") ELSE
          LET pat == Resolve(args[1], c.s) IN
          IF ~Callable(pat) THEN Stop(c, "unspec")
          ELSE LET k2 == KeyOf(pat) IN
@@ -281,13 +288,14 @@ Builtin(c, name, t, rest) ==
                          [kind |-> "retract", snap |-> Get(c.db, k2), i |-> 1, pat |-> pat, key |-> k2,
                           rest |-> rest, s |-> c.s, seen |-> <<>>])
     [] name = "retractall" ->
+         IF TooBig(args[1], c.s) THEN Stop(c, "unspec") ELSE
          LET pat == Resolve(args[1], c.s) IN
          IF ~Callable(pat) THEN Stop(c, "unspec")
          ELSE LET k2 == KeyOf(pat)
                   facts == Get(c.db, k2) IN
-              IF \E i \in DOMAIN facts : MGU(Shift(facts[i].term, c.nv), pat, c.s).cyc THEN Stop(c, "cyclic")
+              IF \E i \in DOMAIN facts : Match(Shift(facts[i].term, c.nv), pat, c.s).cyc THEN Stop(c, "cyclic")
               ELSE Ev([c EXCEPT !.goals = rest,
-                                !.db = Put(c.db, k2, SelectSeq(facts, LAMBDA f : MGU(Shift(f.term, c.nv), pat, c.s).fail))],
+                                !.db = Put(c.db, k2, SelectSeq(facts, LAMBDA f : Match(Shift(f.term, c.nv), pat, c.s).fail))],
                       "DoRetractAll")
 
 Call(c, t, cb, rest) ==
@@ -296,8 +304,11 @@ Call(c, t, cb, rest) ==
                [kind |-> "alts", snap |-> Get(c.db, KeyOf(t)), i |-> 1, goal |-> t,
                 D |-> DefsFor(c, t.n, Arity(t)), rest |-> rest, s |-> c.s, seen |-> <<>>])
 
+\* terms of more than a few thousand nodes (searches that double a term at every level) are not expanded:
+\* the scenario is left unspecified at that point
+AnswerTooBig(c) == \E i \in 1..c.qnv : TooBig(V(i - 1), c.s)
 StepF(c) ==
-  IF c.goals = <<>> THEN Ev([c EXCEPT !.status = "answer"], "DoAnswer")
+  IF c.goals = <<>> THEN (IF AnswerTooBig(c) THEN Stop(c, "unspec") ELSE Ev([c EXCEPT !.status = "answer"], "DoAnswer"))
   ELSE LET f == c.goals[1]
            rest == Tail(c.goals)
            g == f.g
@@ -318,7 +329,8 @@ StepF(c) ==
            \* an instance that is not ground: the property says "instances of T" and does not settle whether
            \* their variables are the caller's or fresh ones (ISO copies; the code keeps what get_value returns,
            \* which depends on the direction of variable-variable bindings): unspecified, the scenario is cut
-           IF ~Ground(Resolve(g.t, c.s)) THEN Stop(c, "unspec")
+           IF TooBig(g.t, c.s) THEN Stop(c, "unspec")
+           ELSE IF ~Ground(Resolve(g.t, c.s)) THEN Stop(c, "unspec")
            ELSE Ev([c EXCEPT !.goals = rest, !.bags[g.k] = Append(@, Resolve(g.t, c.s))], "DoFindallCollect")
       [] g.b = "call" -> Call(c, Walk(g.g, c.s), cb, rest)
 
@@ -370,7 +382,7 @@ RegisterInto(g, op) ==
 
 AssertInto(g, op) ==
   LET s == IF op.r = 0 THEN <<>> ELSE runs[op.r].s
-      ct == Canon(Resolve(op.term, s))
+      ct == Canon(AsFact(Resolve(op.term, s)))
       key == KeyOf(ct.term)
       fact == [id |-> g.nf, term |-> ct.term, nv |-> ct.nv]
       old == Get(g.db, key) IN
